@@ -1,5 +1,6 @@
 import OciModel.Driver.Funcs
 import OciModel.Driver.Scope
+import OciModel.Driver.Ref
 
 structure DState where
   scopes : OciModel.Driver.Scope.Regs := []
@@ -9,6 +10,7 @@ def step (st : DState) (line : String) : DState × String :=
   match (line.trimAscii.toString.splitOn " ") with
   | ["reset"] => ({}, "ok")
   | "funcs" :: rest => (st, OciModel.Driver.Funcs.drive rest)
+  | "ref" :: rest => (st, OciModel.Driver.Ref.drive rest)
   | "scope" :: rest =>
     let (r, out) := OciModel.Driver.Scope.drive st.scopes rest
     ({ st with scopes := r }, out)
